@@ -27,6 +27,7 @@ type Obligation struct {
 	res        *Result
 	pc, goal   smt.Term
 	facts      *factNode
+	known      *knownNode
 	values     []string
 }
 
@@ -35,6 +36,71 @@ func (o *Obligation) Query() string {
 	o.res.mu.Lock()
 	defer o.res.mu.Unlock()
 	return o.res.ctx.Query(o.facts.list(), o.pc, o.goal, append([]string{o.res.pktLen0.S}, o.values...))
+}
+
+// WeakQuery returns a cheaper sufficient query: instead of the exact path
+// condition it assumes only the (decomposed) branch conditions that hold on
+// every path to the obligation, sliced to those connected to the goal by
+// scalar data flow (memory loads and merged path conditions are atoms), and
+// no earlier obligations.  unsat proves the
+// obligation; any other answer is inconclusive (use Query).  Returns "" when
+// there is nothing to gain.
+func (o *Obligation) WeakQuery() string {
+	o.res.mu.Lock()
+	defer o.res.mu.Unlock()
+	tm := o.res.tm
+	var gs []smt.Term
+	for n := o.known; n != nil; n = n.next {
+		if n.comp {
+			continue
+		}
+		t := smt.Term{S: n.s, Sort: smt.Bool}
+		if !n.v {
+			t = smt.Not(t)
+		}
+		gs = append(gs, t)
+	}
+	for i, j := 0, len(gs)-1; i < j; i, j = i+1, j-1 {
+		gs[i], gs[j] = gs[j], gs[i]
+	}
+	if len(gs) == 0 {
+		return ""
+	}
+	cone := tm.scalarSyms(o.goal.S)
+	syms := make([]map[string]bool, len(gs))
+	incl := make([]bool, len(gs))
+	for i, g := range gs {
+		syms[i] = tm.scalarSyms(g.S)
+	}
+	for changed := true; changed; {
+		changed = false
+		for i := range gs {
+			if incl[i] {
+				continue
+			}
+			hit := false
+			for k := range syms[i] {
+				if cone[k] {
+					hit = true
+					break
+				}
+			}
+			if hit {
+				incl[i] = true
+				changed = true
+				for k := range syms[i] {
+					cone[k] = true
+				}
+			}
+		}
+	}
+	var as []smt.Term
+	for i, g := range gs {
+		if incl[i] {
+			as = append(as, g)
+		}
+	}
+	return tm.weakQuery(as, o.goal, nil)
 }
 
 type blockProbe struct {
@@ -91,6 +157,7 @@ type Result struct {
 	finalLen   smt.Term
 	finalPkt   smt.Term
 	probeNames map[string]string
+	tm         *terms
 }
 
 // Verify executes entry point funcName of mod symbolically and returns its
@@ -123,7 +190,8 @@ func Verify(mod *Module, funcName string, opts Options) (*Result, error) {
 	t0 := time.Now()
 	e := &executor{mod: mod, ctx: res.ctx, opts: opts, res: res, fn: f, globalReg: map[string]*Region{}, mergeMemo: map[mergeKey]*Val{},
 		siteOrd: map[*Instr]int{}, ids: map[string]int{}, mapVerMax: map[string]int{}, probes: res.probes, notes: map[string]bool{}}
-	e.tm = &terms{ctx: res.ctx, addInfo: map[string]addRec{}}
+	e.tm = &terms{ctx: res.ctx, addInfo: map[string]addRec{}, defs: map[string]*defRec{}, boolDefs: map[string]string{}, axIDs: map[string]bool{}}
+	res.tm = e.tm
 	err := e.verifyEntry(f, pt, spec)
 	res.ExecTimeS = time.Since(t0).Seconds()
 	res.Regions = len(e.regions)
@@ -169,8 +237,8 @@ func (e *executor) verifyEntry(f *Function, pt string, spec *ProgSpec) error {
 		panic("region numbering")
 	}
 	e.res.pkt0, e.res.ctx0, e.res.ctxSize, e.res.ctxStruct = pkt.init.Base, cr.init.Base, int(ctxSize), e.ctxStruct
-	e.pktLen0 = e.ctx.Const("pkt_len0", smt.BV(64))
-	e.ctx.Axiom("pkt_len0", e.tm.icmp("ule", e.pktLen0, lit(65535, 64)), "pkt_len0")
+	e.pktLen0 = e.tm.declConst("pkt_len0", smt.BV(64))
+	e.tm.axiom("pkt_len0", e.tm.icmp("ule", e.pktLen0, lit(65535, 64)), "pkt_len0")
 	e.res.pktLen0 = e.pktLen0
 	// globals
 	for _, g := range e.mod.GlobalList {
@@ -213,7 +281,7 @@ func (e *executor) verifyEntry(f *Function, pt string, spec *ProgSpec) error {
 		e.note("no path reaches a return instruction")
 		return nil
 	}
-	ret := e.ctx.Let("retval", rv.T)
+	ret := e.tm.named("retval", rv.T)
 	e.res.retTerm = ret
 	e.res.finalLen = out.pktLen
 	// verdict
@@ -226,25 +294,53 @@ func (e *executor) verifyEntry(f *Function, pt string, spec *ProgSpec) error {
 	}
 	// pass_unmodified
 	if !spec.NoPassUnmodified {
-		final := e.flush(out.regMem(e, ridPacket)).Base
-		e.res.finalPkt = final
-		k := e.ctx.Const("pu_idx", smt.BV(64))
-		acts, err := spec.actsTerm(out)
-		if err != nil {
-			return err
+		k := e.tm.declConst("pu_idx", smt.BV(64))
+		mkGoal := func(retT smt.Term, s *State, mem *RegMem) (smt.Term, []string, error) {
+			acts, err := spec.actsTerm(s)
+			if err != nil {
+				return smt.Term{}, nil, err
+			}
+			same := e.tm.icmp("eq", s.pktLen, e.pktLen0)
+			final := e.res.pkt0
+			if !(mem.Base.S == e.res.pkt0.S && len(mem.Ov) == 0) {
+				final = e.flush(mem).Base
+				same = smt.And(same, smt.Implies(e.tm.icmp("ult", k, e.pktLen0), smt.Eq(smt.Select(final, k), smt.Select(e.res.pkt0, k))))
+			}
+			goal := smt.Implies(e.tm.icmp("eq", retT, lit(uint64(spec.Pass), 32)), smt.Or(acts, e.tm.named("pkt_unmodified", same)))
+			return goal, []string{retT.S, k.S, smt.Select(final, k).S, smt.Select(e.res.pkt0, k).S, s.pktLen.S}, nil
 		}
-		same := smt.And(e.tm.icmp("eq", out.pktLen, e.pktLen0),
-			smt.Implies(e.tm.icmp("ult", k, e.pktLen0), smt.Eq(smt.Select(final, k), smt.Select(e.res.pkt0, k))))
-		goal := smt.Implies(e.tm.icmp("eq", ret, lit(uint64(spec.Pass), 32)), smt.Or(acts, e.ctx.Let("pkt_unmodified", same)))
+		src := fmt.Sprintf("ret == %d => packet bytes and length unchanged (or acts: %q)", spec.Pass, spec.Acts)
 		leaves := e.retSources(fr)
 		if len(leaves) == 0 {
 			leaves = []retLeaf{{label: "ret", pc: smt.True}}
 		}
 		for _, lf := range leaves {
+			if lf.snap != nil && !lf.snap.multi && lf.pure {
+				// state on the edge itself; nothing between the edge and the
+				// return instruction touches memory
+				sn := lf.snap
+				ls := &State{pc: sn.pc, pktLen: sn.pktLen, facts: sn.facts, known: sn.known, found: sn.found}
+				retT := ret
+				if v, ok := sn.phis[lf.reg]; ok && lf.reg != "" && !v.IsPtr {
+					retT = v.T
+				}
+				goal, vals, err := mkGoal(retT, ls, sn.pkt)
+				if err != nil {
+					return err
+				}
+				if o := e.oblige(fr, ls, "pass_unmodified", "via "+lf.label, goal, src); o != nil {
+					o.values = vals
+				}
+				continue
+			}
 			ls := *out
-			ls.pc = e.ctx.Let("pc", smt.And(out.pc, lf.pc))
-			if o := e.oblige(fr, &ls, "pass_unmodified", "via "+lf.label, goal, fmt.Sprintf("ret == %d => packet bytes and length unchanged (or acts: %q)", spec.Pass, spec.Acts)); o != nil {
-				o.values = []string{ret.S, k.S, smt.Select(final, k).S, smt.Select(e.res.pkt0, k).S, out.pktLen.S}
+			ls.pc = e.tm.named("pc", smt.And(out.pc, lf.pc))
+			goal, vals, err := mkGoal(ret, &ls, out.regMem(e, ridPacket))
+			if err != nil {
+				return err
+			}
+			if o := e.oblige(fr, &ls, "pass_unmodified", "via "+lf.label, goal, src); o != nil {
+				o.values = vals
 			}
 		}
 	}
@@ -254,6 +350,9 @@ func (e *executor) verifyEntry(f *Function, pt string, spec *ProgSpec) error {
 type retLeaf struct {
 	label string
 	pc    smt.Term
+	snap  *edgeSnap
+	reg   string // phi register of the edge target that carries the return value
+	pure  bool   // no memory effects between the edge and the return
 }
 
 // retSources splits "the function returns" by the control-flow edges that
@@ -263,6 +362,40 @@ func (e *executor) retSources(fr *frame) []retLeaf {
 	f := fr.f
 	var leaves []retLeaf
 	seen := map[[2]int]bool{}
+	// pureChain[b]: from the start of b every path reaches a return through
+	// instructions without memory effects
+	pureChain := map[int]bool{}
+	var isPure func(b int, depth int) bool
+	isPure = func(b int, depth int) bool {
+		if v, ok := pureChain[b]; ok {
+			return v
+		}
+		if depth > 16 || f.cfg.loopOf[b] != nil {
+			return false
+		}
+		pureChain[b] = false
+		for _, in := range f.Blocks[b].Instrs {
+			switch in.Op {
+			case "phi", "bitcast", "select", "icmp", "br", "ret", "zext", "sext", "trunc", "switch":
+			case "call":
+				if !strings.HasPrefix(in.Callee, "llvm.lifetime.") && !strings.HasPrefix(in.Callee, "llvm.dbg.") {
+					return false
+				}
+			default:
+				return false
+			}
+		}
+		for _, sc := range f.cfg.succ[b] {
+			if !isPure(sc, depth+1) {
+				return false
+			}
+		}
+		pureChain[b] = true
+		return true
+	}
+	for i := range f.Blocks {
+		isPure(i, 0)
+	}
 	phiIn := func(b *Block, reg string, from string) *Value {
 		for _, in := range b.Instrs {
 			if in.Op != "phi" {
@@ -307,7 +440,7 @@ func (e *executor) retSources(fr *frame) []retLeaf {
 				continue
 			}
 			seen[key] = true
-			leaves = append(leaves, retLeaf{label: pb.Name + "->" + b.Name, pc: pc})
+			leaves = append(leaves, retLeaf{label: pb.Name + "->" + b.Name, pc: pc, snap: fr.snaps[key], reg: reg, pure: pureChain[b.Index]})
 		}
 	}
 	rbs := map[int]bool{}
@@ -400,31 +533,97 @@ type Solved struct {
 }
 
 // Solve discharges obligations: queries are generated sequentially (the
-// context memoises), solved in parallel by the solver portfolio.
+// context memoises), solved in parallel by the solver portfolio.  In-bounds
+// obligations are first tried with WeakQuery (short budget), consecutive
+// ones that share the same set of known branch conditions as one conjunction;
+// only what is not proved that way is decided by the exact Query.
 func Solve(obligs []*Obligation, solver *smt.Solver, workers int) []Solved {
 	if workers < 1 {
 		workers = 1
 	}
+	quick := solver
+	if solver.Timeout > 3*time.Second {
+		quick = smt.NewSolver(3*time.Second, solver.CacheDir)
+	}
 	out := make([]Solved, len(obligs))
 	type job struct {
-		i int
-		q string
+		idx  []int
+		weak string
 	}
 	jobs := make(chan job, workers)
 	var wg sync.WaitGroup
+	exact := func(i int, spent float64) {
+		s := &out[i]
+		q := s.O.Query()
+		s.QueryBytes = len(q)
+		if len(q) > MaxQueryBytes {
+			s.Status, s.Solver = "toolimit", "none"
+			return
+		}
+		r := solver.Check(q)
+		s.Status, s.Solver, s.TimeS, s.Values, s.Outputs = r.Status, r.Solver, r.TimeS+spent, r.Values, r.Outputs
+		if r.Status == "sat" {
+			s.Model = s.O.extractModel(solver)
+		}
+	}
 	for w := 0; w < workers; w++ {
 		wg.Add(1)
 		go func() {
 			defer wg.Done()
 			for j := range jobs {
-				r := solver.Check(j.q)
-				s := &out[j.i]
-				s.Status, s.Solver, s.TimeS, s.Values, s.Outputs = r.Status, r.Solver, r.TimeS, r.Values, r.Outputs
-				if r.Status == "sat" {
-					s.Model = s.O.extractModel(solver)
+				if j.weak == "" {
+					for _, i := range j.idx {
+						exact(i, 0)
+					}
+					continue
+				}
+				r := quick.CheckQuick(j.weak, quick.Timeout)
+				if r.Status == "unsat" {
+					for _, i := range j.idx {
+						s := &out[i]
+						s.Status, s.TimeS, s.QueryBytes = "unsat", r.TimeS/float64(len(j.idx)), len(j.weak)
+						s.Solver = r.Solver + "/guards"
+						if len(j.idx) > 1 {
+							s.Solver = fmt.Sprintf("%s/guards(group of %d)", r.Solver, len(j.idx))
+						}
+					}
+					continue
+				}
+				spent := r.TimeS / float64(len(j.idx))
+				for _, i := range j.idx {
+					if len(j.idx) > 1 {
+						w := weakGroup([]*Obligation{out[i].O})
+						if w != "" {
+							r := quick.CheckQuick(w, quick.Timeout)
+							if r.Status == "unsat" {
+								s := &out[i]
+								s.Status, s.Solver, s.TimeS, s.QueryBytes = "unsat", r.Solver+"/guards", r.TimeS+spent, len(w)
+								continue
+							}
+							exact(i, spent+r.TimeS)
+							continue
+						}
+					}
+					exact(i, spent)
 				}
 			}
 		}()
+	}
+	var grp []int
+	flush := func() {
+		if len(grp) == 0 {
+			return
+		}
+		var os []*Obligation
+		for _, i := range grp {
+			os = append(os, obligs[i])
+		}
+		w := weakGroup(os)
+		if len(w) > MaxQueryBytes {
+			w = ""
+		}
+		jobs <- job{append([]int(nil), grp...), w}
+		grp = grp[:0]
 	}
 	for i, o := range obligs {
 		out[i].O = o
@@ -432,15 +631,40 @@ func Solve(obligs []*Obligation, solver *smt.Solver, workers int) []Solved {
 			out[i].Status, out[i].Solver = "unsat", "syntactic"
 			continue
 		}
-		q := o.Query()
-		out[i].QueryBytes = len(q)
-		if len(q) > MaxQueryBytes {
-			out[i].Status, out[i].Solver = "toolimit", "none"
+		weakable := !NoWeakQueries && (o.Kind == "inbounds" || o.Kind == "divzero" || o.Kind == "helperarg")
+		if !weakable {
+			flush()
+			jobs <- job{[]int{i}, ""}
 			continue
 		}
-		jobs <- job{i, q}
+		if len(grp) > 0 && (obligs[grp[0]].known != o.known || len(grp) >= WeakGroupSize) {
+			flush()
+		}
+		grp = append(grp, i)
 	}
+	flush()
 	close(jobs)
 	wg.Wait()
 	return out
 }
+
+// WeakGroupSize bounds how many obligations are proved by one weak query.
+var WeakGroupSize = 24
+
+// weakGroup builds the weak query for the conjunction of the goals of
+// obligations that share their known-condition list.
+func weakGroup(os []*Obligation) string {
+	if len(os) == 1 {
+		return os[0].WeakQuery()
+	}
+	goals := make([]smt.Term, len(os))
+	for i, o := range os {
+		goals[i] = o.goal
+	}
+	tmp := *os[0]
+	tmp.goal = smt.And(goals...)
+	return tmp.WeakQuery()
+}
+
+// NoWeakQueries disables the guard-sliced first attempt (debugging).
+var NoWeakQueries = false
